@@ -61,7 +61,7 @@ def main():
             shutil.copy(notes, d / "notes.md")
         meta = dict(property=prop, also=[], origin="fresh sub-agent given only the property text and a scratch worktree",
                     breaks=[prop], needs=[Path(notes).read_text().strip()[:1500] if notes and Path(notes).exists() else ""],
-                    files=files,
+                    files=files, tests=("pending" if skip_tests else summary.strip()),
                     ran=f"scratch worktree of /repo HEAD: git apply ok; pytest -n 8 with the change: '{summary.strip()}'; "
                         f"demo.py clean rc={rc.returncode}, with the change rc={rm.returncode}")
         (d / "meta.json").write_text(json.dumps(meta, indent=1))
